@@ -1,14 +1,22 @@
 # go-block-format: assumed contracts (the library's debug mode, which re-hashes the data, is off)
 fn blockLen(b ref) int
+fn blkCid(b ref) ref
+fn blkData(b ref) []byte
 
 func github.com/ipfs/go-block-format.NewBlockWithCid
   assumed
   modifies alloc
   ensures result1 == nil && result0 != nil && blockLen(result0) == len(data)
+  ensures blkCid(result0) == c && blkData(result0) == data
 func github.com/ipfs/go-block-format.Block.RawData
   assumed
   modifies nothing
-  ensures len(result) == blockLen(self) && blockLen(self) >= 0
+  ensures len(result) == blockLen(self) && blockLen(self) >= 0 && result == blkData(self)
 func github.com/ipfs/go-block-format.Block.Cid
   assumed
   modifies nothing
+  ensures result == blkCid(self)
+func github.com/ipfs/go-block-format.BasicBlock.Cid
+  assumed
+  modifies nothing
+  ensures result == blkCid(self)
